@@ -124,10 +124,13 @@ func TestOneofHistory(t *testing.T) {
 	mo.MaxFields = 3
 	pbt.Run(t, pbt.Prop[oneofCase]{
 		Name: "oneof-history",
-		Rule: "types: modern linked types with a real oneof of >= 2 members (generated or dynamicpb); 2..20 steps: reflection ops on oneof members (set incl. zero values, mutable, clear of active and inactive members), proto.Merge from a message with a drawn member, Merge-decoding of a wire with 1..4 members in drawn order. non-trivial = the active member changes >= 2 times incl. once via merge or decode",
+		Rule: "types: modern linked types with a real oneof of >= 2 members (generated or dynamicpb), a hand-written struct-tag type with two same-type members, and two dynamicpb-only schemas whose oneofs start after one / two ordinary fields; 2..20 steps: reflection ops on oneof members (set incl. zero values, mutable, clear of active and inactive members), proto.Merge from a message with a drawn member, Merge-decoding of a wire with 1..4 members in drawn order. non-trivial = the active member changes >= 2 times incl. once via merge or decode",
 		Draw: func(t *rapid.T) oneofCase {
 			typ := pairName
-			if rapid.IntRange(0, 4).Draw(t, "pair?") > 0 {
+			switch k := rapid.IntRange(0, 5).Draw(t, "pair?"); {
+			case k == 1:
+				typ = rapid.SampledFrom(earlyNames).Draw(t, "early")
+			case k > 1:
 				typ = rapid.SampledFrom(oneofTypes).Draw(t, "type")
 			}
 			c := oneofCase{Type: typ, Dynamic: rapid.IntRange(0, 3).Draw(t, "dyn") == 0, Lazy: rapid.Bool().Draw(t, "lazy")}
